@@ -23,6 +23,9 @@ import (
 // C14: request headers -> incoming metadata, handler header/trailer metadata -> response.
 //   C14I <proto> <hdrs>                       ; <metadata the handler saw>
 //   C14O <proto> <ok|fail> <hdr md> <trl md>  ; <resp headers> <resp trailers> <baseline headers> <baseline trailers>
+//   C14S <proto> <ok|fail> <steps>            ; <resp headers call 1> <resp headers call 2> <app metadata changed 0|1>
+//       steps: s<map>+s<map>+S<map>: SetHeader calls, then optionally one SendHeader, with metadata objects
+//       the application keeps and hands over again for the next call (two calls in a row)
 // maps are written  hexkey=hexval|hexval;hexkey=...  sorted by key (keys lower-cased on the observation side)
 
 type c14Env struct {
@@ -31,6 +34,13 @@ type c14Env struct {
 	hdr  metadata.MD
 	trl  metadata.MD
 	fail bool
+	// C14S: the handler's own, long-lived metadata objects, handed to SetHeader / SendHeader as they are
+	steps []c14Step
+}
+
+type c14Step struct {
+	send bool
+	md   metadata.MD
 }
 
 var c14env *c14Env
@@ -97,6 +107,17 @@ func c14Setup() *c14Env {
 	impl := &dynImpl{Unary: func(ctx context.Context, method string, req proto.Message, out protoreflect.MessageDescriptor) (proto.Message, error) {
 		md, _ := metadata.FromIncomingContext(ctx)
 		e.seen = md.Copy()
+		for _, st := range e.steps {
+			var err error
+			if st.send {
+				err = grpc.SendHeader(ctx, st.md)
+			} else {
+				err = grpc.SetHeader(ctx, st.md)
+			}
+			if err != nil {
+				return nil, status.Error(codes.Internal, "header step: "+err.Error())
+			}
+		}
 		if e.hdr != nil {
 			if err := grpc.SetHeader(ctx, e.hdr.Copy()); err != nil {
 				return nil, status.Error(codes.Internal, "SetHeader: "+err.Error())
@@ -187,7 +208,40 @@ func c14Run(o *out, input string) {
 	f := strings.Fields(input)
 	e := c14Setup()
 	switch f[0] {
+	case "C14S":
+		e.hdr, e.trl, e.seen = nil, nil, nil
+		e.fail = f[2] == "fail"
+		e.steps = nil
+		var orig []string
+		for _, st := range strings.Split(f[3], "+") {
+			e.steps = append(e.steps, c14Step{send: st[0] == 'S', md: metadata.MD(decMap(st[1:]))})
+			orig = append(orig, st[1:])
+		}
+		defer func() { e.steps = nil }()
+		h1, _, p1 := c14Call(f[1], nil)
+		h2, _, p2 := c14Call(f[1], nil)
+		if p1 || p2 {
+			o.emit(input, "panic")
+			return
+		}
+		changed := 0
+		for i, st := range e.steps {
+			if encMap(st.md) != orig[i] {
+				changed = 1
+			}
+		}
+		keep := func(h map[string][]string) map[string][]string {
+			out := map[string][]string{}
+			for k, v := range h {
+				if strings.HasPrefix(k, "x-") {
+					out[k] = v
+				}
+			}
+			return out
+		}
+		o.emit(input, fmt.Sprintf("%s %s %d", encMap(keep(h1)), encMap(keep(h2)), changed))
 	case "C14I":
+		e.steps = nil
 		e.hdr, e.trl, e.fail, e.seen = nil, nil, false, nil
 		_, _, p := c14Call(f[1], decMap(f[2]))
 		if p {
@@ -196,6 +250,7 @@ func c14Run(o *out, input string) {
 		}
 		o.emit(input, encMap(e.seen))
 	case "C14O":
+		e.steps = nil
 		e.fail = f[2] == "fail"
 		e.hdr, e.trl = metadata.MD(decMap(f[3])), metadata.MD(decMap(f[4]))
 		h1, t1, p := c14Call(f[1], nil)
@@ -335,6 +390,42 @@ func c14Gen(o *out, r *rng, tier string) {
 				emitO(p, fail, map[string][]string{"x-resp-bin": {string(b)}}, map[string][]string{"x-t-bin": {string(b)}}, "bin")
 			}
 		}
+	}
+	// header metadata built up in several steps from objects the application keeps
+	stepKeys := []string{"x-a", "x-step", "x-common", "x-req-id"}
+	emitS := func(p string, fail bool, steps []string) {
+		o.count("steps/" + p)
+		st := "ok"
+		if fail {
+			st = "fail"
+		}
+		c14Run(o, fmt.Sprintf("C14S %s %s %s", p, st, strings.Join(steps, "+")))
+	}
+	for _, p := range protos {
+		for _, fail := range []bool{false, true} {
+			emitS(p, fail, []string{"s" + encMap(map[string][]string{"x-step": {"first"}}), "S" + encMap(map[string][]string{"x-step": {"second"}})})
+			emitS(p, fail, []string{"s" + encMap(map[string][]string{"x-common": {"c"}}), "s" + encMap(map[string][]string{"x-req-id": {"r1"}})})
+			emitS(p, fail, []string{"s" + encMap(map[string][]string{"x-common": {"c"}, "x-a": {"1"}}), "s" + encMap(map[string][]string{"x-a": {"2", "3"}}), "S" + encMap(map[string][]string{"x-a": {"4"}, "x-req-id": {"r"}})})
+		}
+	}
+	for i := 0; i < n/2; i++ {
+		var steps []string
+		k := 1 + r.intn(3)
+		for j := 0; j < k; j++ {
+			m := map[string][]string{}
+			for q, c := 0, 1+r.intn(2); q < c; q++ {
+				key := stepKeys[r.intn(len(stepKeys))]
+				for v, vc := 0, 1+r.intn(2); v < vc; v++ {
+					m[key] = append(m[key], fmt.Sprintf("%s%d%d", text[r.intn(len(text))], j, v))
+				}
+			}
+			op := "s"
+			if j == k-1 && r.bool() {
+				op = "S"
+			}
+			steps = append(steps, op+encMap(m))
+		}
+		emitS(protos[r.intn(3)], r.intn(3) == 0, steps)
 	}
 	for i := 0; i < n; i++ {
 		mk := func() map[string][]string {
